@@ -2,6 +2,8 @@ import Hertz.Driver.Core
 import Hertz.Model.Http1.Resp
 import Hertz.Model.Http1.RespMsg
 import Hertz.Spec.Resp
+import Hertz.Model.Http1.RespSeq
+import Hertz.Spec.RespSeq
 namespace Hertz.Driver.C04
 open Hertz Hertz.Driver Hertz.H1.Resp Hertz.Gen.Str
 
@@ -95,6 +97,10 @@ def parseCase0 (toks : List String) : Option Case := do
         let v ← hx v
         if !c.frozen && Spec.Resp.lowerAll k == Spec.Resp.lowerAll strContentLength then
           pure { c with hs := setLengthHeader c.hs v }
+        else if Spec.Resp.lowerAll k == Spec.Resp.sConnection then
+          -- X04: `setSpecialHeader` for `Connection`: the bytes `close` set the close flag, any other value clears it
+          -- (`ResetConnectionClose`) and is stored as a generic field (seen through the dump)
+          pure { c with respClose := v == strClose }
         else pure c
       | _ => none) init
 
@@ -259,7 +265,184 @@ def modelWire : List Case → List Dump → Bytes → Option (Bytes × Bool × B
 def dumpTokens (r : HW.RespHdr) : List String :=
   [toString r.contentLength, encHex r.clBytes] ++ (r.h.filter (fun kv => kv.1 == strTransferEncoding)).map (fun kv => encHex kv.2)
 
+/-! ### X04 — op `respq`: what follows a response on the connection
+
+The whole wire of a pipelined connection is recomputed from `Model/Http1/RespSeq.lean` (`wire 4096 exchanges`:
+messages up to and including the first exchange after which `Serve` leaves its loop; of a message whose body
+writer fails, the header block and the whole output buffers `standard.Conn.ReadFrom` had flushed) and compared
+byte for byte with everything the real server wrote.  The spec predicate `specSeq` reads the IMPLEMENTATION's
+bytes as a client does and uses only what the handlers intended (status, bytes delivered, declared length,
+close requested or not). -/
+section Seq
+open Hertz.H1.RespSeq
+
+def parseReqConn : String → ReqConn
+  | "c" => .close | "k" => .keepAlive | "K" => .keepAlive | "-" => .absent | _ => .other
+
+/-- `Error when parsing request` (`defaultErrorHandler`) -/
+def errMsg400 : Bytes := "Error when parsing request".toUTF8.toList
+
+structure QCase where
+  c : Case
+  reqConn : ReqConn
+  /-- answered by `writeErrorResponse`, no handler ran -/
+  isErr : Bool := false
+  /-- the handler called `ctx.Hijack` (token `HJ`) -/
+  hijack : Bool := false
+  /-- the request (`Connection: Close`) or the handler (`Header.Set("Connection", "Close")`) spelled the `close`
+  connection option with other letter case: RFC 7230 §6.1 makes it the same option, hertz compares bytes -/
+  reqCloseCase : Bool := false
+  respCloseCase : Bool := false
+  /-- `Options.DisableKeepalive` (first token `DK`) -/
+  srvClose : Bool := false
+
+def parseQCase (toks : List String) : Option QCase :=
+  match toks with
+  | ["XR"] =>
+    some { c := { req := { isHead := false, http11 := true, reqClose := false },
+                  prog := { status := 400, body := .bytes errMsg400 }, respClose := true },
+           reqConn := .absent, isErr := true }
+  | q :: rest =>
+    let mp := q.splitOn ":"
+    let rc := parseReqConn (mp.getD 3 "")
+    -- `BE` (stream ending with a read error) and `BT` (last bytes together with io.EOF) are `SetBodyStream(r, n)`
+    -- like `BS`; the model's bytes do not depend on how the stream ends (see Model/Http1/RespSeq.lean)
+    let rest := rest.map (fun t => if t.startsWith "BE:" || t.startsWith "BT:" then "BS:" ++ (t.drop 3).toString else t)
+    (parseCase (q :: rest.filter (· != "HJ"))).map (fun c =>
+      { c := { c with req := { c.req with reqClose := reqClose c.req.http11 rc } }, reqConn := rc,
+        hijack := rest.contains "HJ",
+        reqCloseCase := mp.getD 3 "" == "C",
+        respCloseCase := rest.any (fun t => match t.splitOn ":" with
+          | ["H", k, v] => (match hx k, hx v with
+            | some k, some v => Spec.Resp.lowerAll k == Spec.Resp.sConnection && Spec.Resp.lowerAll v == Spec.Resp.sClose && v != strClose
+            | _, _ => false)
+          | _ => false) })
+  | [] => none
+
+/-- the header state of the answer `writeErrorResponse` builds (`AbortWithMsg` on a reset response, then
+`SetServerBytes`); server name and date policy are the connection's, taken from the first dump -/
+def errDump (d0 : Dump) : Dump :=
+  { reason := "Bad Request".toUTF8.toList, ctset := true,
+    r := { d0.r with contentType := "text/plain; charset=utf-8".toUTF8.toList, contentLength := 0, contentEncoding := [],
+                     clBytes := [], h := [], trailer := [], cookies := [], connClose := true } }
+
+/-- `hdrOf` without the `Connection` edit (that is `RespSeq.serveHdr` now) -/
+def hdrOf0 (c : Case) (d : Dump) (wireDate : Option Bytes) : HW.RespHdr :=
+  let r := d.r
+  let r := { r with statusLine := statusLineOf c.prog.status d.reason,
+                    date := r.date.map (fun x => wireDate.getD x) }
+  let finalCL : Int := match (frame c.prog c.req.isHead).framing with
+    | .none => r.contentLength | .cl n => n | .chunked => -1
+  { r with contentType := if d.ctset || finalCL != 0 then r.contentType else [] }
+
+def mkExch (q : QCase) (d : Dump) (wireDate : Option Bytes) : Exch :=
+  { http11 := q.c.req.http11, reqConn := q.reqConn, isHead := q.c.req.isHead, r := hdrOf0 q.c d wireDate, p := q.c.prog,
+    respClose := q.c.respClose, early := q.c.earlyHeader, hijack := q.hijack, srvClose := q.srvClose }
+
+/-- the exchanges of the connection (dates are taken from the implementation's bytes at the place the model
+says the message starts); `none` = a dump is missing; the Bool = the framing fields predicted for every header
+state agree with the dumps -/
+def exchs (d0 : Option Dump) : List QCase → List Dump → Bytes → Option (List Exch × Bool)
+  | [], _, _ => some ([], true)
+  | q :: qs, ds, rest =>
+    let dd : Option (Dump × List Dump) :=
+      if q.isErr then d0.map (fun d => (errDump d, ds)) else
+      match ds with | d :: t => some (d, t) | [] => none
+    match dd with
+    | none => none
+    | some (d, ds') =>
+      let e := mkExch q d (findDate rest)
+      let ok := q.isErr || hdrAgrees q.c d
+      if stops e then some ([e], ok)
+      else (exchs d0 qs ds' (rest.drop (msg e).length)).map (fun r => (e :: r.1, ok && r.2))
+
+/-- what the handler's stream delivers, and whether that is less than it declared while a body is to be sent
+(from the program alone; independent of `frame`) -/
+def delivered (c : Case) : Bytes :=
+  match c.prog.body with
+  | .stream _ reads => reads.flatten
+  | .limited _ reads => reads.flatten
+  | _ => []
+
+def shortIntent (c : Case) : Bool :=
+  !(c.req.isHead || Spec.Resp.noBodyStatus c.prog.status) &&
+  (match c.prog.body with
+   | .stream d reads => d > (reads.flatten.length : Int)
+   | .limited l reads => l > reads.flatten.length
+   | _ => false)
+
+/-- the client's reading of the bytes the server wrote.  Per outstanding request: a handler whose stream ran
+short must NOT come out as a complete message — what is there is a header block followed by bytes the stream
+did deliver, and it is the last thing on the connection; every other response is complete, has the handler's
+status and body, announces `close` exactly when the request or the handler asked for it (`keep-alive` to an
+HTTP/1.0 peer otherwise), nothing follows a closing response, and the next response starts exactly where this
+one ends. -/
+def specSeq : List QCase → Bytes → Bool × String × String
+  | [], s => (s.isEmpty, "bytes after the last response", "")
+  | q :: qs, s =>
+    let c := q.c
+    if shortIntent c then
+      if s.isEmpty then (true, "", "") else
+      match Spec.Head.parseHead s with
+      | none => (false, "short stream: what was written is not even a header block", "")
+      | some (_, _, rest) =>
+        (rest.isPrefixOf (delivered c), "short stream: bytes after the header block that the stream did not deliver (the connection was kept?)", "")
+    else if s.isEmpty then (false, "no response although the connection was not closed", "")
+    else match Spec.Resp.decodeOne c.req.isHead s with
+      | none => (false, "a response is cut short or malformed", "")
+      | some (m, rest) =>
+        let okMsg := m.status == c.prog.status && m.body == payloadOf c.prog c.req.isHead
+        -- the connection option `close` is case-insensitive (RFC 7230 §6.1)
+        let mustClose := q.srvClose || c.req.reqClose || c.respClose || q.reqCloseCase || q.respCloseCase
+        let cls := if q.reqCloseCase || q.respCloseCase then "connection-close-case" else ""
+        let okConn := c.earlyHeader ||
+          (Spec.Resp.saysClose m == mustClose && (c.req.http11 || mustClose || Spec.Resp.saysKeepAlive m))
+        if !okMsg then (false, "a response does not carry the handler's status and body", "")
+        else if !okConn then (false, "Connection header does not announce the decision", cls)
+        else if Spec.Resp.saysClose m || mustClose || q.hijack then (rest.isEmpty, "bytes after a closing (or hijacked) response", cls)
+        else specSeq qs rest
+
+def endTag (cap : Nat) : List Exch → String
+  | [] => "end"
+  | e :: es =>
+    if failed e then "short" ++ toString (min 3 ((frame e.p e.isHead).wire.length / cap)) ++
+      (if (frame e.p e.isHead).wire.isEmpty then "e" else "")
+    else if closes e then (if e.early then "closeEarly" else if e.srvClose then "srvClose" else if reqClose e.http11 e.reqConn then "reqClose" else "respClose")
+    else if e.hijack then "hijack"
+    else endTag cap es
+
+def handleQ (toks impl : List String) : Option Result := do
+  let dk := toks.head? == some "DK"
+  let qs ← (splitOnStr "/" (if dk then toks.drop 1 else toks)).mapM parseQCase
+  let qs := qs.map (fun q => { q with srvClose := dk })
+  let wire ← impl.head? >>= hx
+  let dtoks := impl.dropWhile (· != "D")
+  let dumps := (match dtoks with
+    | _ :: k :: t => parseDumps k.toNat! t
+    | _ => none).getD []
+  let (ok, note, cls) := specSeq qs wire
+  match exchs dumps.head? qs dumps wire with
+  | none => pure { out := ["MSG", "NODUMP"], spec := ok, specNote := note, tag := "respq:nodump", cls }
+  | some (es, hdrOk) =>
+    let mw := Hertz.H1.RespSeq.wire 4096 es
+    let out := if !hdrOk then "HDR" :: qs.flatMap (fun q => dumpTokens q.c.hs)
+               else if mw == wire then impl else ["MODEL", encHex mw]
+    pure { out, spec := ok, specNote := note, cls,
+           tag := "respq:" ++ toString (answered es).length ++ ":" ++ endTag 4096 es ++ ":" ++
+                  boolTok (es.any (fun e => !e.http11)) ++ boolTok (es.any (·.isHead)) ++
+                  boolTok (qs.any (·.isErr) && es.length == qs.length) }
+
+/-- X04: the whole wire of a `respw` connection from the same model, so that a connection on which a stream runs
+short is compared exactly as well (the older `modelWire` only asked for the messages before it as a prefix) -/
+def modelWireX (cases : List Case) (dumps : List Dump) (wire : Bytes) : Option (Bytes × Bool × Bool) :=
+  let qs := cases.map (fun c =>
+    ({ c, reqConn := if c.req.reqClose then .close else if c.req.http11 then .absent else .keepAlive } : QCase))
+  (exchs dumps.head? qs dumps wire).map (fun r => (Hertz.H1.RespSeq.wire 4096 r.1, false, r.2))
+
+end Seq
+
 def handle : Handler
+  | "respq" :: toks, impl => handleQ toks impl
   | "respw" :: toks, impl => do
     let cases ← (splitOnStr "/" toks).mapM parseCase
     let wire ← impl.head? >>= hx
@@ -275,7 +458,7 @@ def handle : Handler
       | _ => none).getD []
     -- the whole message (header block + body) of every response against the bytes written: equal, or
     -- (when the model says a writer fails mid-message) the messages before that one are a prefix
-    let mw := modelWire cases dumps wire
+    let mw := modelWireX cases dumps wire
     let (msgAgree, msgOut) : Bool × List String := match mw with
       | none => (false, ["MSG", "NODUMP"])
       | some (m, failed, hdrOk) =>
